@@ -200,6 +200,16 @@ def stampFields (s : List Char) : List Nat :=
       else []
     | _ => []
 
+/-- the stamp is written the way the instrument writes it: `YYYY.MM.DD`, every field zero-padded
+(`time.strptime` also reads one-digit months and days) -/
+def stampStrict (s : List Char) : Bool :=
+  match tofwerkGroup s with
+  | none => false
+  | some (d, _, _, _) =>
+    match splitDots d with
+    | [y, m, dd] => y.length == 4 && m.length == 2 && dd.length == 2
+    | _ => false
+
 /-- keys are compared as Python compares ints / strings: lexicographic, a proper prefix first -/
 def keyLe : List Int → List Int → Bool
   | [], _ => true
